@@ -711,6 +711,13 @@ class Emitter:
             return ' ' * self.rng.randint(1, maxi)
         return ''
 
+    def trail(self):
+        """Trailing spaces after a line that ignores them (thematic break, ATX line, setext underline, closing fence)."""
+        if self.opt.canonical or not self.opt.indent or self.rng.random() > 0.15:
+            return ''
+        self.stat('trailing-spaces')
+        return ' ' * self.rng.randint(1, 3)
+
     def e_para(self, nd, ctx):
         rng, opt = self.rng, self.opt
         phys = inl_md(nd.inl)
@@ -737,17 +744,17 @@ class Emitter:
             s += ' ' + nd.closing
         if nd.closing:
             self.stat('atx-closing-sequence')
-        return [Line(self.ind(ctx) + s, kind='atx')]
+        return [Line(self.ind(ctx) + s + (self.trail() if (nd.closing or not text) else ''), kind='atx')]
 
     def e_setext(self, nd, ctx):
         phys = inl_md(nd.inl)
         ind = self.ind(ctx)
         out = [Line(ind + l, kind='setext') for l in phys]
-        out.append(Line(self.ind(ctx) + nd.under, kind='setext-underline'))
+        out.append(Line(self.ind(ctx) + nd.under + self.trail(), kind='setext-underline'))
         return out
 
     def e_hr(self, nd, ctx):
-        return [Line(self.ind(ctx) + nd.spell, kind='hr')]
+        return [Line(self.ind(ctx) + nd.spell + self.trail(), kind='hr')]
 
     def e_fence(self, nd, ctx):
         ind = self.node_indent(nd, ctx)
@@ -760,7 +767,7 @@ class Emitter:
         for l in nd.lines:
             out.append(Line((ind + l) if l else '', kind='fence-body'))
         if nd.closed:
-            out.append(Line(ind + f + nd.ch * (0 if self.opt.canonical else nd.close_extra), kind='fence-close'))
+            out.append(Line(ind + f + nd.ch * (0 if self.opt.canonical else nd.close_extra) + self.trail(), kind='fence-close'))
         self.stat('fence:%s%d' % (nd.ch, nd.length))
         return out
 
